@@ -141,6 +141,17 @@ func (m *Machine) binop(op token.Token, xt types.Type, x, y Value, yt types.Type
 			return c.Bin(OMul, xv, yv)
 		case token.QUO, token.REM:
 			m.require(c.Not(c.Eq(yv, c.BV(0, int(yv.W)))), "panic:divide", "integer divide by zero")
+			if yv.IsConst() && yv.C != 0 && xv.Op == OMul && xv.Args[1].IsConst() && xv.Args[1].C != 0 && xv.Args[1].C%yv.C == 0 && xv.W == 64 {
+				// (x*k)/d with d | k, when x*k is known not to overflow: x*(k/d), remainder 0
+				inner, k := xv.Args[0], xv.Args[1].C
+				m.refreshFacts()
+				if r, ok := m.rangeOf(m.rewrite(inner), 0); ok && k < 1<<32 && r.hi <= (uint64(1)<<63-1)/k {
+					if op == token.QUO {
+						return c.Bin(OMul, inner, c.BV(k/yv.C, 64))
+					}
+					return c.BV(0, 64)
+				}
+			}
 			if yv.IsConst() && yv.C != 0 && yv.C&(yv.C-1) == 0 && !xv.IsConst() {
 				// power-of-two divisor: shift / mask when the dividend is unsigned or known non-negative
 				nonneg := !signed
